@@ -1071,6 +1071,35 @@ def check_c14(tier, seed):
                 except Exception as e:
                     b.fail("C14.bounded.bad_seed_wrong_error", d3, f"{type(e).__name__}: {e}")
                 b.case(d3)
+    # gradients computed at another precision than the tensor's (ops called with an explicit dtype=), for 0-d and n-d tensors: the stored
+    # gradient has the tensor's own dtype and shape whatever the precision and shape of the first contribution
+    lowprec = [(np.float64, np.float32), (np.float64, np.float16), (np.float32, np.float16), (np.float32, np.float64), (np.float16, np.float32)]
+    dops = [("multiply", lambda x, y, d: mg.multiply(x, y, dtype=d)), ("add", lambda x, y, d: mg.add(x, y, dtype=d)), ("exp", lambda x, y, d: mg.exp(x, dtype=d)), ("sum-of-product", lambda x, y, d: mg.sum(mg.multiply(x, y, dtype=d))),
+            ("divide", lambda x, y, d: mg.divide(y, x, dtype=d))]
+    for (tdt, odt) in lowprec:
+        for shape in ((), (3,), (2, 2)):
+            for yshape in ((), (3,) if shape != (2, 2) else (2, 2)):
+                for on, of in dops:
+                    for twice in (False, True):
+                        x = mg.tensor(np.asarray(rng.uniform(1, 2, size=shape), dtype=tdt))
+                        y = mg.tensor(np.asarray(rng.uniform(1, 2, size=yshape), dtype=tdt))
+                        d5 = dict(op=on, tensor_dtype=np.dtype(tdt).name, op_dtype=np.dtype(odt).name, x_shape=list(shape), y_shape=list(yshape), second_contribution=twice)
+                        b.count("I1 with explicit op dtype")
+                        try:
+                            out = of(x, y, odt)
+                            if twice:
+                                out = out.sum() + (x * 2.0).sum()  # a second, full-precision contribution arrives later
+                            out.backward()
+                        except Exception as e:
+                            b.error(f"lowprec/{d5}: {type(e).__name__}: {e}")
+                            continue
+                        for nm_, t in (("x", x), ("y", y)):
+                            gr = t.grad
+                            if gr is None:
+                                continue
+                            if not isinstance(gr, np.ndarray) or gr.shape != t.shape or gr.dtype != t.dtype:
+                                b.fail("C14.bounded.I1", dict(d5, tensor=nm_), f"grad type/shape/dtype = {type(gr).__name__}/{getattr(gr,'shape',None)}/{getattr(gr,'dtype',None)} vs tensor {t.shape}/{t.dtype}")
+                        b.case(d5)
     # the terminal tensor in every graph position: leaf, intermediate, view of a leaf, view that already went through a backward pass
     # (its graph is cleared, its base link lingers), view whose base holds a gradient: L.backward([g]) leaves L.grad = the seed
     def terminals():
